@@ -22,7 +22,7 @@ ASSUMPTIONS = ["an entity reads the sum of the red and green networks at its con
 
 
 def budget(tier):
-    return {"examples": 3200 if tier == "quick" else 24000, "wall_s": 110 if tier == "quick" else 1500}
+    return {"examples": 3200 if tier == "quick" else 24000, "wall_s": 110 if tier == "quick" else 900}
 
 
 @st.composite
